@@ -25,7 +25,7 @@ def engine_hash():
     h = hashlib.sha256()
     d = os.path.dirname(os.path.abspath(__file__))
     for fn in sorted(os.listdir(d)):
-        if fn.endswith('.py') and fn not in ('core.py',) and not fn.startswith('rule'):
+        if fn.endswith('.py') and fn not in ('core.py', 'cli.py', 'graph.py') and not fn.startswith('rule'):
             h.update(open(os.path.join(d, fn), 'rb').read())
     return h.hexdigest()[:16]
 
@@ -43,48 +43,46 @@ class Model:
         self.evt = None
 
     # ------------------------------------------------------------------ machines
-    def machines(self):
-        if self.cmd is not None:
-            return self.cmd, self.evt
-        key = _hash_sources(('model', self.defines, self.ndebug, engine_hash()))
-        pk = os.path.join(CACHE, 'fsm-%s.pkl' % key)
-        self.cmd = Explorer(self.ms, 'cmd')
-        self.evt = Explorer(self.ms, 'evt')
+    def machine(self, which):
+        """the extracted machine 'cmd' or 'evt' of this configuration (explored on demand, cached)"""
+        cur = getattr(self, which)
+        if cur is not None:
+            return cur
+        key = _hash_sources(('model', which, self.defines, self.ndebug, engine_hash()))
+        pk = os.path.join(CACHE, 'fsm-%s-%s.pkl' % (which, key))
+        ex = Explorer(self.ms, which)
         if os.path.exists(pk) and not os.environ.get('CATSA_NOCACHE'):
             try:
                 with open(pk, 'rb') as fh:
                     d = pickle.load(fh)
-                for ex, name in ((self.cmd, 'cmd'), (self.evt, 'evt')):
-                    ex.live = d[name]['live']
-                    ex.store = d[name]['store']
-                    ex.transitions = d[name]['transitions']
-                    ex.stats = d[name]['stats']
-                    for t in ex.transitions:
-                        t['pre'] = ex.store[t['from_key']][0]
-                self.timing['fsm_cached'] = True
-                return self.cmd, self.evt
+                ex.live, ex.store, ex.transitions, ex.stats = d['live'], d['store'], d['transitions'], d['stats']
+                for t in ex.transitions:
+                    t['pre'] = ex.store[t['from_key']][0]
+                self.timing['fsm_%s_cached' % which] = True
+                setattr(self, which, ex)
+                return ex
             except Exception:
                 pass
         t0 = time.time()
-        inits = self.ms.init_state()
-        for ex in (self.evt, self.cmd):
-            ex.explore(inits)
-            ex.collect()
-        self.timing['fsm_s'] = round(time.time() - t0, 1)
-        self.timing['fsm_cached'] = False
+        ex.explore(self.ms.init_state())
+        ex.collect()
+        self.timing['fsm_%s_s' % which] = round(time.time() - t0, 1)
+        self.timing['fsm_%s_cached' % which] = False
         os.makedirs(CACHE, exist_ok=True)
-        d = {}
-        for ex, name in ((self.cmd, 'cmd'), (self.evt, 'evt')):
-            d[name] = {'live': ex.live, 'store': ex.store, 'stats': ex.stats,
-                       'transitions': [{k: v for k, v in t.items() if k != 'pre'} for t in ex.transitions]}
+        d = {'live': ex.live, 'store': ex.store, 'stats': ex.stats,
+             'transitions': [{k: v for k, v in t.items() if k != 'pre'} for t in ex.transitions]}
         tmp = pk + '.%d.tmp' % os.getpid()
         with open(tmp, 'wb') as fh:
             pickle.dump(d, fh, protocol=4)
         os.replace(tmp, pk)
         self._gc_cache()
-        return self.cmd, self.evt
+        setattr(self, which, ex)
+        return ex
 
-    def _gc_cache(self, keep=4):
+    def machines(self):
+        return self.machine('cmd'), self.machine('evt')
+
+    def _gc_cache(self, keep=16):
         try:
             fs = sorted((os.path.getmtime(os.path.join(CACHE, f)), f) for f in os.listdir(CACHE) if f.startswith('fsm-'))
             for _, f in fs[:-keep]:
